@@ -370,6 +370,32 @@ def _pure_value(e):
     return False
 
 
+def _loop_over_lookups(st):
+    """for x in [D[k] for k in S]: B   ->   for k in S: x = D[k]; B     (D[k] a plain lookup;
+    B does not rebind k or the names D[k] reads)"""
+    if not (isinstance(st, ast.For) and not st.orelse and isinstance(st.target, ast.Name)
+            and isinstance(st.iter, (ast.ListComp, ast.GeneratorExp))
+            and len(st.iter.generators) == 1 and not st.iter.generators[0].ifs
+            and not st.iter.generators[0].is_async
+            and isinstance(st.iter.elt, ast.Subscript) and _alias_expr(st.iter.elt)):
+        return None
+    g = st.iter.generators[0]
+    names = {n.id for n in ast.walk(st.iter) if isinstance(n, ast.Name)}
+    stored = {n.id for b in st.body for n in ast.walk(b) if isinstance(n, ast.Name)
+              and isinstance(n.ctx, (ast.Store, ast.Del))} - {st.target.id}
+    if names & stored or st.target.id in names:
+        return None
+    bind = ast.Assign(targets=[ast.Name(id=st.target.id, ctx=ast.Store())], value=st.iter.elt)
+    tgt = copy.deepcopy(g.target)
+    for n in ast.walk(tgt):
+        if isinstance(n, (ast.Name, ast.Tuple, ast.List)):
+            n.ctx = ast.Store()
+    loop = ast.For(target=tgt, iter=g.iter, body=[bind] + st.body, orelse=[])
+    ast.copy_location(loop, st)
+    ast.fix_missing_locations(loop)
+    return [loop]
+
+
 def _reduce_to_loop(st):
     """T = functools.reduce(F, (E for k in S), INIT)   ->   T = INIT; for k in S: T = F(T, E)
     (T a name or a plain subscript that neither F's arguments nor S mention)"""
@@ -431,7 +457,8 @@ def _lazy_iter_loops(block):
     and  T = D.setdefault(K, V)  (V a plain value)  ->  if K not in D: D[K] = V ; T = D[K]"""
     out = []
     i = 0
-    block = [x for st in block for x in (_reduce_to_loop(st) or [st])]
+    block = [x for st in block for x in (_reduce_to_loop(st) or _loop_over_lookups(st)
+                                          or [st])]
     while i < len(block):
         st = block[i]
         nxt = block[i + 1] if i + 1 < len(block) else None
@@ -813,6 +840,23 @@ def _helper_kind(fn):
         # several returns, each the last thing done on its path: the statement containing
         # the call is carried to every return
         norm = _returns_to_tail(copy.deepcopy(body))
+        if _tail_ok(norm):
+            return "multi", norm
+        # a path that falls off the end returns None
+        def sink(block, tail):
+            if not block:
+                return list(tail)
+            if _always_jumps(block):
+                return block
+            last = block[-1]
+            if isinstance(last, ast.If):
+                last.body = sink(last.body, tail)
+                last.orelse = sink(last.orelse, tail)
+                return block
+            return block + list(tail)
+        none = ast.fix_missing_locations(
+            ast.copy_location(ast.Return(value=ast.Constant(value=None)), body[-1]))
+        norm = _returns_to_tail(sink(copy.deepcopy(body), [none]))
         if _tail_ok(norm):
             return "multi", norm
     return None, body
@@ -1538,6 +1582,25 @@ class _Inliner:
                           if isinstance(n, ast.Name) and isinstance(n.ctx, ast.Store)}
                 if stores & set(m):
                     return node
+                # an argument that is an expression and is read more than once is evaluated
+                # once, into a temporary (the helper's parameter), not copied to every use
+                reads = {}
+                for s_ in body:
+                    for n in ast.walk(s_):
+                        if isinstance(n, ast.Name) and isinstance(n.ctx, ast.Load):
+                            reads[n.id] = reads.get(n.id, 0) + 1
+                hoist = [p_ for p_, a_ in m.items() if reads.get(p_, 0) > 1
+                         and not _simple_arg(a_) and not isinstance(a_, ast.Constant)]
+                if hoist and self.depth:
+                    return node
+                for p_ in hoist:
+                    tmp = f"{p_}__h{next(_counter)}"
+                    a_st = ast.Assign(targets=[ast.Name(id=tmp, ctx=ast.Store())],
+                                      value=mapping[p_])
+                    ast.copy_location(a_st, node)
+                    ast.fix_missing_locations(a_st)
+                    pre.append(a_st)
+                    mapping[p_] = ast.Name(id=tmp, ctx=ast.Load())
                 mapping.update(inl.fresh(body, list(m)))
                 new = [_Subst(mapping).visit(copy.deepcopy(s)) for s in body]
                 for s in new[:-1]:
@@ -1763,10 +1826,11 @@ def _unappend_aliases(fn):
                 other.add(n.id)
     changed = False
     for name, al in augs.items():
-        if name in other or len(defs.get(name, [])) != 1:
+        if name in other or not defs.get(name):
             continue
-        rhs = defs[name][0].value
-        if not isinstance(rhs, ast.Subscript) or not _alias_expr(rhs):
+        # every binding of the name is an alias of a stored object
+        if not all(isinstance(d.value, ast.Subscript) and _alias_expr(d.value)
+                   for d in defs[name]):
             continue
         for a in al:
             call = ast.Expr(value=ast.Call(
@@ -2843,12 +2907,21 @@ def private_objects(tree):
     Nothing is changed unless every method used is of an inlinable kind."""
     classes, class_consts = {}, {}
     for node in tree.body:
+        is_dc = isinstance(node, ast.ClassDef) and len(node.decorator_list) == 1 and _unparse(
+            node.decorator_list[0]) in ("dataclass", "dataclasses.dataclass", "_dataclass")
         if isinstance(node, ast.ClassDef) and node.name.startswith("_") \
                 and not node.name.startswith("__") and not node.bases and not node.keywords \
-                and not node.decorator_list:
+                and (not node.decorator_list or is_dc):
             meths, ok, consts = {}, True, {}
+            dc_fields = []
             for sub in node.body:
                 if isinstance(sub, ast.Expr) and isinstance(sub.value, ast.Constant):
+                    continue
+                if is_dc and isinstance(sub, ast.AnnAssign) and isinstance(sub.target, ast.Name) \
+                        and sub.simple:
+                    if sub.value is not None and not isinstance(sub.value, ast.Constant):
+                        ok = False
+                    dc_fields.append((sub.target.id, sub.value))
                     continue
                 if isinstance(sub, ast.Assign) and len(sub.targets) == 1 \
                         and isinstance(sub.targets[0], ast.Name):
@@ -2866,6 +2939,28 @@ def private_objects(tree):
                     meths[sub.name] = sub
                 else:
                     ok = False
+            if is_dc and ok and "__init__" not in meths and "__post_init__" not in meths \
+                    and dc_fields:
+                # the constructor a dataclass generates: one parameter per field, in order
+                seen_default = False
+                for _f, dv in dc_fields:
+                    if dv is None and seen_default:
+                        ok = False
+                    seen_default = seen_default or dv is not None
+                init = ast.FunctionDef(
+                    name="__init__",
+                    args=ast.arguments(
+                        posonlyargs=[], args=[ast.arg(arg="self")] + [ast.arg(arg=f_)
+                                                                        for f_, _d in dc_fields],
+                        vararg=None, kwonlyargs=[], kw_defaults=[], kwarg=None,
+                        defaults=[copy.deepcopy(dv) for _f, dv in dc_fields if dv is not None]),
+                    body=[ast.Assign(targets=[ast.Attribute(
+                        value=ast.Name(id="self", ctx=ast.Load()), attr=f_, ctx=ast.Store())],
+                        value=ast.Name(id=f_, ctx=ast.Load())) for f_, _d in dc_fields],
+                    decorator_list=[], returns=None, type_comment=None, type_params=[])
+                ast.copy_location(init, node)
+                ast.fix_missing_locations(init)
+                meths["__init__"] = init
             if ok and "__init__" in meths:
                 classes[node.name] = meths
                 class_consts[node.name] = consts
@@ -2878,6 +2973,45 @@ def private_objects(tree):
     if not classes:
         return tree
     own_methods = {id(m) for ms in classes.values() for m in ms.values()}
+    # module-level instances built from literals, of classes whose methods never write to self
+    # after construction: each function that uses one gets its own copy at its top (the object
+    # is immutable, so a fresh one per call is the same thing)
+    for st in list(tree.body):
+        if not (isinstance(st, ast.Assign) and len(st.targets) == 1
+                and isinstance(st.targets[0], ast.Name) and isinstance(st.value, ast.Call)
+                and isinstance(st.value.func, ast.Name) and st.value.func.id in classes):
+            continue
+        X, cname = st.targets[0].id, st.value.func.id
+        try:
+            for a in st.value.args:
+                ast.literal_eval(a)
+            for k in st.value.keywords:
+                ast.literal_eval(k.value)
+        except (ValueError, TypeError, SyntaxError):
+            continue
+        if sum(isinstance(n, ast.Name) and n.id == X and isinstance(n.ctx, ast.Store)
+               for n in ast.walk(tree)) != 1:
+            continue
+        frozen = not any(
+            isinstance(t, ast.Attribute) and isinstance(t.value, ast.Name)
+            and t.value.id == "self" and isinstance(t.ctx, (ast.Store, ast.Del))
+            for mname, m in classes[cname].items() if mname != "__init__"
+            for t in ast.walk(m))
+        users = [F for F in ast.walk(tree) if isinstance(F, ast.FunctionDef)
+                 and id(F) not in own_methods
+                 and any(isinstance(n, ast.Name) and n.id == X for n in ast.walk(F))]
+        loads = [n for n in ast.walk(tree) if isinstance(n, ast.Name) and n.id == X
+                 and isinstance(n.ctx, ast.Load)]
+        inside = [n for F in users for n in ast.walk(F) if isinstance(n, ast.Name)
+                  and n.id == X]
+        if not frozen or not users or len(loads) != len(inside) or any(
+                X in [a.arg for a in F.args.args + F.args.kwonlyargs] for F in users):
+            continue
+        for F in users:
+            k = 1 if (F.body and isinstance(F.body[0], ast.Expr)
+                      and isinstance(F.body[0].value, ast.Constant)) else 0
+            F.body.insert(k, copy.deepcopy(st))
+        tree.body = [n for n in tree.body if n is not st]
     helpers_needed = {}
 
     def hname(cname, meth):
